@@ -353,6 +353,11 @@ def scope_world(rng) -> World:
     x = w.add_lexicon('x', '1', base=a1)
     fill_lexicon(w, x, rng, rng.randint(0, 2), rng.randint(0, 1), ['', 'i4'])
     add_relations(w, x, rng, rng.randint(1, 4), rng.randint(0, 2), rng.randint(0, 1))
+    if rng.random() < 0.4:
+        # a second version of the extension: a sibling extension with the same ids
+        x2 = w.add_lexicon('x', '2', base=a1)
+        fill_lexicon(w, x2, rng, rng.randint(1, 2), 1, ['', 'i4'])
+        add_relations(w, x2, rng, rng.randint(0, 2), 0, 0)
     u = w.add_lexicon('u', '1', lang='fr', requires=rng.choice([[], ['a:1'], ['a:2']]))
     fill_lexicon(w, u, rng, rng.randint(2, 3), rng.randint(1, 2), ilis)
     add_relations(w, u, rng, rng.randint(0, 2), 0, 0)
